@@ -76,4 +76,43 @@ Definition expected_ops_Pool_Get : list sk :=
 Definition expected_ops_Pool_Put : list sk :=
   [SPrim (POp "call" "@.pool.Put")].
 
+Definition expected_ops_NewSlicePool : list sk :=
+  [SPrim (POp "func-begin" ""); SReturn; SPrim (POp "func-end" ""); SPrim (POp "call" "NewPool"); SReturn].
+
+Definition expected_ops_httputil_Wrap : list sk :=
+  [SPrim (POp "assign" "wrapped = h"); SPrim (POp "for" "i >= 0"); SLoop [SPrim (POp "call" "m.Wrap")]; SReturn].
+
+Definition expected_ops_CopyRequestTo : list sk :=
+  [SPrim (POp "call" "src.WithContext"); SPrim (POp "deref-write" "dst")].
+
+Definition expected_ops_NewLogMiddleware : list sk :=
+  [SPrim (POp "call" "syncutil.NewSlicePool[slog.Attr]"); SPrim (POp "lit-field" "attrPool: syncutil.NewSlicePool[slog.Attr](logMwAttrNum)"); SPrim (POp "func-begin" ""); SReturn; SPrim (POp "func-end" ""); SPrim (POp "call" "syncutil.NewPool"); SPrim (POp "lit-field" "reqPool: syncutil.NewPool(func() (r *http.Request) { return &http.Request{} })"); SPrim (POp "func-begin" ""); SReturn; SPrim (POp "func-end" ""); SPrim (POp "call" "syncutil.NewPool"); SPrim (POp "lit-field" "rwPool: syncutil.NewPool(func() (rw *CodeRecorderResponseWriter) { return &CodeRecorderR"); SPrim (POp "lit-field" "logger: l"); SPrim (POp "lit-field" "lvl: lvl"); SReturn].
+
+Definition expected_ops_LogMiddleware_Wrap : list sk :=
+  [SPrim (POp "func-begin" ""); SPrim (POp "call" "time.Now"); SPrim (POp "call" "@.attrsSlicePtr"); SPrim (POp "defer" "@.attrPool.Put"); SPrim (POp "call" "@.logger.Handler"); SPrim (POp "call" "@.logger.Handler().WithAttrs"); SPrim (POp "call" "slog.New"); SPrim (POp "call" "r.Context"); SPrim (POp "call" "slogutil.ContextWithLogger"); SPrim (POp "call" "@.reqPool.Get"); SPrim (POp "defer" "@.reqPool.Put"); SPrim (POp "call" "CopyRequestTo"); SPrim (POp "call" "@.rwPool.Get"); SPrim (POp "defer" "@.rwPool.Put"); SPrim (POp "call" "rw.Reset"); SPrim (POp "call" "l.Log"); SPrim (POp "defer" "@.logFinished"); SPrim (POp "call" "h.ServeHTTP"); SPrim (POp "call" "rw.SetImplicitSuccess"); SPrim (POp "func-end" ""); SPrim (POp "call" "http.HandlerFunc"); SReturn].
+
+Definition expected_ops_LogMiddleware_logFinished : list sk :=
+  [SPrim (POp "call" "l.Enabled"); SPrim (POp "if" "l.Enabled(ctx, mw.lvl)"); SIf [SPrim (POp "call" "time.Since"); SPrim (POp "call" "timeutil.Duration"); SPrim (POp "call" "l.Log")] []].
+
+Definition expected_ops_LogMiddleware_attrsSlicePtr : list sk :=
+  [SPrim (POp "call" "@.attrPool.Get"); SPrim (POp "call" "slog.String"); SPrim (POp "index-write" "attrs"); SPrim (POp "call" "slog.String"); SPrim (POp "index-write" "attrs"); SPrim (POp "call" "slog.String"); SPrim (POp "index-write" "attrs"); SPrim (POp "call" "slog.String"); SPrim (POp "index-write" "attrs"); SReturn].
+
+Definition expected_ops_CRW_SetImplicitSuccess : list sk :=
+  [SPrim (POp "call" "cmp.Or"); SPrim (POp "field-write" "@.code")].
+
+Definition expected_ops_CRW_Reset : list sk :=
+  [SPrim (POp "field-write" "@.rw"); SPrim (POp "field-write" "@.code")].
+
+Definition expected_ops_CRW_Header : list sk :=
+  [SPrim (POp "call" "@.rw.Header"); SReturn].
+
+Definition expected_ops_CRW_Write : list sk :=
+  [SPrim (POp "call" "@.rw.Write"); SReturn].
+
+Definition expected_ops_CRW_WriteHeader : list sk :=
+  [SPrim (POp "field-write" "@.code"); SPrim (POp "call" "@.rw.WriteHeader")].
+
+Definition expected_ops_CRW_Code : list sk :=
+  [SReturn].
+
 Close Scope string_scope.
